@@ -1,6 +1,7 @@
 import MaddyVerif.Model.Errors
 /-!
-Model of `internal/dsn/dsn.go`: `GenerateDSN`, `ReportingMTAInfo.WriteTo`, `RecipientInfo.WriteTo`,
+Model of `internal/dsn/dsn.go` (and of `framework/address`: `Split`, `ToASCII`, `ToUnicode`,
+`SelectIDNA`): `GenerateDSN`, `ReportingMTAInfo.WriteTo`, `RecipientInfo.WriteTo`,
 `writeHumanReadablePart`, `writeMachineReadablePart`, `writeHeader` (the tree after the fix:
 commits "text/rfc822-headers" and "ASCII Diagnostic-Code").
 
@@ -11,7 +12,9 @@ The byte level (boundaries, folding, field order inside a group, dates, the rand
 not modelled; it is checked on every generated report by an independent MIME parse in the harness.
 
 External behaviour is a parameter: `Idna` stands for `address.SelectIDNA` and `dns.SelectIDNA`
-(x/net/idna, x/text NFC); `none` is a conversion error.
+(x/net/idna, x/text NFC); `none` is a conversion error.  `Idna.ofConv` is the instance the driver
+uses: `address.SelectIDNA` itself is mirrored (`split`, `toASCII`, `toUnicode`, `selectIDNA`), only
+the two library calls on the DOMAIN (`DomConv`) stay parameters.
 
 Strings are lists of Unicode code points.  Core Lean only.
 -/
@@ -28,6 +31,74 @@ def lit (s : String) : Str := s.toList.map Char.toNat
 structure Idna where
   addr : Bool → Str → Option Str      -- address.SelectIDNA(ulabel, addr)
   dom  : Bool → Str → Option Str      -- dns.SelectIDNA(ulabel, domain)
+
+/-! ### `address.Split`, `address.ToASCII`, `address.ToUnicode`, `address.SelectIDNA`
+
+(`framework/address/split.go`, `rfc6531.go`.)  The local part is opaque: it is cut off at the LAST
+at-sign and put back untouched; only the domain goes through the library (`DomConv`).  On an error
+the Go functions also return a string, which `dsn.go` ignores — `none` here. -/
+
+/-- The library calls below `address.SelectIDNA`; `none` = error. -/
+structure DomConv where
+  toASCII   : Str → Option Str      -- idna.ToASCII(domain)
+  toUnicode : Str → Option Str      -- norm.NFC.String(idna.ToUnicode(domain))
+
+/-- Cut at the last occurrence of `c` (`strings.LastIndexByte`; `c` is ASCII, so bytes and code
+points agree). -/
+def splitLast (c : Nat) : Str → Option (Str × Str)
+  | [] => none
+  | x :: rest =>
+    match splitLast c rest with
+    | some (a, b) => some (x :: a, b)
+    | none => if x == c then some ([], rest) else none
+
+/-- One step of `strings.EqualFold` against a lower-case ASCII letter `t`: equal, the upper-case
+letter, or — for `s` — U+017F LATIN SMALL LETTER LONG S (the only non-ASCII member of a simple-fold
+orbit of the letters of "postmaster"). -/
+def foldsTo (c t : Nat) : Bool :=
+  c == t || (decide (65 ≤ c) && decide (c ≤ 90) && c + 32 == t) || (t == 115 && c == 383)
+
+def postmaster : Str := [112, 111, 115, 116, 109, 97, 115, 116, 101, 114]
+
+/-- `strings.EqualFold(addr, "postmaster")`. -/
+def eqFoldPostmaster (s : Str) : Bool :=
+  s.length == postmaster.length && (s.zip postmaster).all (fun p => foldsTo p.1 p.2)
+
+/-- `address.Split`: `(mailbox, domain)`; the domain-less postmaster has domain `""`. -/
+def splitAddr (addr : Str) : Option (Str × Str) :=
+  if eqFoldPostmaster addr then some (addr, []) else
+  match splitLast 64 addr with
+  | none => none
+  | some (mb, dom) => if mb.isEmpty || dom.isEmpty then none else some (mb, dom)
+
+/-- `address.ToASCII`. -/
+def toASCII (dc : DomConv) (addr : Str) : Option Str :=
+  match splitAddr addr with
+  | none => none
+  | some (mb, dom) =>
+    if mb.any (fun c => decide (c ≥ 128)) then none else
+    if dom.isEmpty then some mb else
+    match dc.toASCII dom with
+    | none => none
+    | some d => some (mb ++ 64 :: d)
+
+/-- `address.ToUnicode`. -/
+def toUnicode (dc : DomConv) (addr : Str) : Option Str :=
+  match splitAddr addr with
+  | none => none
+  | some (mb, dom) =>
+    if dom.isEmpty then some mb else
+    match dc.toUnicode dom with
+    | none => none
+    | some d => some (mb ++ 64 :: d)
+
+/-- `address.SelectIDNA`. -/
+def selectIDNA (dc : DomConv) (ulabel : Bool) (addr : Str) : Option Str :=
+  if ulabel then toUnicode dc addr else toASCII dc addr
+
+/-- The conversions `dsn.go` uses, with `address.SelectIDNA` as the code above. -/
+def Idna.ofConv (dc : DomConv) (dom : Bool → Str → Option Str) : Idna :=
+  { addr := selectIDNA dc, dom := dom }
 
 /-! ### inputs (`dsn.Envelope`, `dsn.ReportingMTAInfo`, `dsn.RecipientInfo`) -/
 
